@@ -8,6 +8,7 @@ import IgVerif.Model.CondC
 import IgVerif.Model.Path
 import IgVerif.Model.Float
 import IgVerif.Gen.C18Powers
+import IgVerif.Model.Names
 /-! `igdriver <model>`: reads one op per line on stdin, prints one answer per line.
 Byte strings are hex ("-" = empty). -/
 open IgVerif
@@ -395,6 +396,16 @@ def floatStep (_ : Unit) (toks : List String) : IO (Unit × String) := do
     | none => return ((), "none")
   | _ => return ((), "bad-op")
 
+def namesStep (m : Nm.HMap) (toks : List String) : IO (Nm.HMap × String) := do
+  match toks with
+  | ["reset"] => return ([], "ok")
+  | ["hash", h, off] => return (m, String.ofList (Nm.hashString (unhex h) (off.toNat?.getD 5)))
+  | ["clean", h] => return (m, hex (Nm.cleanIdentifier (unhex h)))
+  | ["assign", h] =>
+    let r := Nm.assign m (unhex h)
+    return (r.1, match r.2 with | some x => String.ofList x | none => "none")
+  | _ => return (m, "bad-op")
+
 def main (args : List String) : IO UInt32 := do
   let stdin ← IO.getStdin
   match args with
@@ -405,4 +416,5 @@ def main (args : List String) : IO UInt32 := do
   | ["cond"] => loop stdin condStep (); return 0
   | ["path"] => loop stdin pathStep (); return 0
   | ["float"] => loop stdin floatStep (); return 0
+  | ["names"] => loop stdin namesStep ([] : Nm.HMap); return 0
   | _ => IO.eprintln "usage: igdriver <model>"; return 2
